@@ -569,7 +569,11 @@ pub fn run_replay<P: Property>(p: &P, path: &Path) -> i32 {
     if let Some(w) = &o.inconclusive {
         println!("INCONCLUSIVE property={id}: {w}");
     }
-    let _ = std::fs::remove_dir_all(scratch_root(id));
+    if std::env::var_os("BGV_KEEP").is_none() {
+        let _ = std::fs::remove_dir_all(scratch_root(id));
+    } else {
+        println!("scratch kept under {}", scratch_root(id).display());
+    }
     if o.failures.is_empty() {
         println!("replay: property={id} held on {}", path.display());
         return if o.inconclusive.is_some() { 2 } else { 0 };
